@@ -81,6 +81,9 @@ def marker(name):
 
 
 # ---------------------------------------------------------------- cooperative gate (C14)
+GATE = None
+
+
 class Gate:
     """Before every file-system call that touches the shared archive the process announces the call
     on a pipe and waits for the scheduler's go-ahead: the parent decides the interleaving of real
@@ -93,6 +96,7 @@ class Gate:
         self.inp = os.fdopen(fd_in, 'r', buffering=1)
         self.on = False
         self.sql_commit = sql_commit
+        self.buffered_files = True
 
     def mine(self, path):
         try:
@@ -120,9 +124,47 @@ class Gate:
         g = self
         real_open = builtins.open
 
+        class WFile(object):
+            """a file opened for writing inside the archive: its data reach the file system when it is closed
+            - explicitly, by a with block, or when the last reference goes - and that is a scheduling point"""
+            def __init__(self, f, name):
+                self.__dict__['_f'] = f
+                self.__dict__['_name'] = name
+                self.__dict__['_closed'] = False
+
+            def write(self, data):
+                return self._f.write(data)
+
+            def close(self):
+                if not self._closed:
+                    self.__dict__['_closed'] = True
+                    g.wait('close(%s)' % self._name)
+                    self._f.close()
+
+            def __enter__(self):
+                return self
+
+            def __exit__(self, *exc):
+                self.close()
+                return False
+
+            def __del__(self):
+                if not self._closed:
+                    self.__dict__['_closed'] = True
+                    try:
+                        g.wait('close-by-gc(%s)' % self._name)
+                    except Exception:
+                        pass
+                    self._f.close()
+
+            def __getattr__(self, n):
+                return getattr(self._f, n)
+
         def open_(file, mode='r', *a, **k):
             if g.mine(file):
                 g.wait('open(%s,%s)' % (os.path.basename(str(file)), mode))
+                if any(c in mode for c in 'wax+') and g.buffered_files:
+                    return WFile(real_open(file, mode, *a, **k), os.path.basename(str(file)))
             return real_open(file, mode, *a, **k)
         builtins.open = open_
         io.open = open_
@@ -270,6 +312,13 @@ def perform(label, path, action):
         return enc_items(dict(ctor(label, path).items()))
     if kind == 'contains':
         return dec(action[1]) in ctor(label, path)
+    if kind == 'contains-hold':
+        # membership test, after which the process keeps its handle open for a while (it goes on with other work)
+        a = ctor(label, path)
+        r = dec(action[1]) in a
+        if GATE is not None:
+            GATE.wait('holding the handle')
+        return r
     if kind == 'probe':
         return reader_probe(label, path, action[1])
     if kind == 'lookup':
@@ -328,6 +377,8 @@ def main():
     if spec.get('gate'):
         gate = Gate(spec['gate']['base'], spec['gate']['out'], spec['gate']['in'], spec['gate'].get('sql_commit', True))
         gate.install()
+        global GATE
+        GATE = gate
         gate.on = True
         gate.wait('start')
     if spec.get('mark'):
